@@ -20,3 +20,30 @@ Print Assumptions C33_recover.
 Theorem C33_configuration_check : forall conf, check_configuration conf = true <-> valid_peers conf.
 Proof. exact check_configuration_spec. Qed.
 Print Assumptions C33_configuration_check.
+
+(* Recovery can be repeated: after any number of attempts that failed or died after any number of RecoverNode's
+   effects (restore, replay, checkpoint, write snapshot, delete log), the attempt that completes still yields exactly
+   the applied history and the peers-file configuration.  (Invariant: the log is deleted only once the snapshot
+   covering it is visible.) *)
+Theorem C33_recover_retry : forall nd h peers (fails : list nat),
+  wf nd h -> check_configuration peers = true ->
+  let nd1 := fold_left (fun n k => partial peers k n) fails nd in
+  exists nd', recover nd1 peers = Recovered nd'
+    /\ contents nd' = applied (n_fk nd) h
+    /\ n_conf nd' = peers
+    /\ n_log nd' = nil
+    /\ exists d, n_snap nd' = Some (List.length h, d).
+Proof. exact recover_retry. Qed.
+Print Assumptions C33_recover_retry.
+
+(* the same for the fault points the driver injects (what check_case evaluates) *)
+Theorem C33_recover_retry_points : forall nd h peers (fs : list (point * bool)),
+  wf nd h -> check_configuration peers = true ->
+  let nd1 := fold_left (failed_attempt peers) fs nd in
+  exists nd', recover nd1 peers = Recovered nd'
+    /\ contents nd' = applied (n_fk nd) h
+    /\ n_conf nd' = peers
+    /\ n_log nd' = nil
+    /\ exists d, n_snap nd' = Some (List.length h, d).
+Proof. exact recover_retry_points. Qed.
+Print Assumptions C33_recover_retry_points.
